@@ -119,6 +119,48 @@ def _cowritten(ix, cls, G):
     return result or set()
 
 
+
+def _restores_inputs(fnode):
+    """reset() gives every free variable its declared default again: for v over <ast>.free_vars (or .vars) the entry <ast>.var_object_dict[v]
+    becomes <ast>.create_var_from_name(v) -- written as a loop of stores, as `D.update((v, C(v)) for v in S)` or with a dict comprehension;
+    <ast> is self.ast or a local bound once to it (also through getattr(self, 'ast', None))"""
+    alias = {'self.ast'}
+    stores = {}
+    for n in ast.walk(fnode):
+        if isinstance(n, ast.Name) and isinstance(n.ctx, ast.Store):
+            stores[n.id] = stores.get(n.id, 0) + 1
+    for n in ast.walk(fnode):
+        if isinstance(n, ast.Assign) and len(n.targets) == 1 and isinstance(n.targets[0], ast.Name) and stores.get(n.targets[0].id) == 1:
+            v = ast.unparse(n.value).replace('"', "'").replace(' ', '')
+            if v in ('self.ast', "getattr(self,'ast',None)", "getattr(self,'ast')"):
+                alias.add(n.targets[0].id)
+
+    def is_ast_attr(e, attrs):
+        return isinstance(e, ast.Attribute) and e.attr in attrs and ast.unparse(e.value) in alias
+
+    def default_of(e, var):
+        return isinstance(e, ast.Call) and is_ast_attr(e.func, ('create_var_from_name',)) and len(e.args) == 1 and isinstance(e.args[0], ast.Name) and e.args[0].id == var
+
+    for n in ast.walk(fnode):
+        if isinstance(n, ast.For) and isinstance(n.target, ast.Name) and is_ast_attr(n.iter, ('free_vars', 'vars')):
+            for st in ast.walk(n):
+                if isinstance(st, ast.Assign) and default_of(st.value, n.target.id) and any(
+                        isinstance(t, ast.Subscript) and is_ast_attr(t.value, ('var_object_dict',)) and isinstance(t.slice, ast.Name) and t.slice.id == n.target.id for t in st.targets):
+                    return True
+        if isinstance(n, ast.Call) and isinstance(n.func, ast.Attribute) and n.func.attr == 'update' and is_ast_attr(n.func.value, ('var_object_dict',)) and len(n.args) == 1:
+            a = n.args[0]
+            if isinstance(a, (ast.GeneratorExp, ast.ListComp)) and len(a.generators) == 1 and not a.generators[0].ifs and isinstance(a.generators[0].target, ast.Name) \
+                    and is_ast_attr(a.generators[0].iter, ('free_vars', 'vars')) and isinstance(a.elt, ast.Tuple) and len(a.elt.elts) == 2:
+                v = a.generators[0].target.id
+                if isinstance(a.elt.elts[0], ast.Name) and a.elt.elts[0].id == v and default_of(a.elt.elts[1], v):
+                    return True
+            if isinstance(a, ast.DictComp) and len(a.generators) == 1 and not a.generators[0].ifs and isinstance(a.generators[0].target, ast.Name) \
+                    and is_ast_attr(a.generators[0].iter, ('free_vars', 'vars')):
+                v = a.generators[0].target.id
+                if isinstance(a.key, ast.Name) and a.key.id == v and default_of(a.value, v):
+                    return True
+    return False
+
 def check(ix, rep):
     from sa.rules import round11 as _r11
     rep.floor('calls of set_ast inside the interpreter classes', _r11.check_set_ast_callers(ix, rep), 1)
@@ -288,15 +330,7 @@ def check(ix, rep):
                         if isinstance(n, ast.Subscript) and isinstance(n.ctx, ast.Store) and ast.unparse(n.value) == 'self.ast.var_object_dict':
                             cond_store = n
             if cond_store is not None:
-                restored = False
-                for f in chain:
-                    for lp in ast.walk(f.node):
-                        if isinstance(lp, ast.For) and 'self.ast.' in ast.unparse(lp.iter) and ('free_vars' in ast.unparse(lp.iter) or ast.unparse(lp.iter).endswith('.vars')) \
-                                and isinstance(lp.target, ast.Name):
-                            for n in ast.walk(lp):
-                                if isinstance(n, ast.Assign) and any(ast.unparse(t) == 'self.ast.var_object_dict[%s]' % lp.target.id for t in n.targets) \
-                                        and 'create_var_from_name' in ast.unparse(n.value):
-                                    restored = True
+                restored = any(_restores_inputs(f.node) for f in chain)
                 slot = '%s:self.ast.var_object_dict:inputs' % slotp
                 if restored:
                     rep.ok('R-STATE', sv.module.rel, sv.qual, slot, 'reset() gives every free variable its declared default object again', sv.node.lineno)
